@@ -35,12 +35,17 @@ fn main() {
   // Panics inside the system under test are caught and classified; keep stderr quiet about them.
   let quiet = std::env::var("VERIF_SHOW_PANICS").is_err();
   if quiet { std::panic::set_hook(Box::new(|_| {})); }
-  let code = match args[1].as_str() {
+  // a panic of the harness itself (not of the system under test, which is caught per run) must
+  // never look like a verdict: exit 2
+  let code = match std::panic::catch_unwind(|| match args[1].as_str() {
     "check" => cmd_check(&args[2..]),
     "replay" => cmd_replay(&args[2..]),
     "selftest" => registry::selftest(args.iter().any(|a| a == "--large")),
     "list" => { for p in registry::claimed() { println!("{}", p); } 0 }
     _ => usage(),
+  }) {
+    Ok(c) => c,
+    Err(e) => { eprintln!("harness error: internal panic in the harness: {} (re-run with VERIF_SHOW_PANICS=1 for the location)", common::panic_msg(&e)); 2 }
   };
   storesim::cleanup_scratch();
   std::process::exit(code);
